@@ -157,6 +157,11 @@ Definition base_errs (b : base) (c : col) : list Q :=
   end.
 Definition pt (b : base) (k : pw) (c : col) : list Q := map (pwf k) (base_errs b c).
 
+(* the same per horizon step: the loss of one (truth, forecast, benchmark) triple *)
+Definition base1 (b : base) (t p bn : Q) : Q :=
+  match b with BPlain => t - p | BPct s => pct_err s t p | BRel => rel_err t p bn end.
+Definition point1 (b : base) (k : pw) (t p bn : Q) : Q := pwf k (base1 b t p bn).
+
 (* in-sample seasonal naive errors: y_train[sp:] - y_train[:-sp] *)
 Definition naive_errs (k : pw0) (sp : nat) (train : list Q) : list Q :=
   map2 (fun a b => pwf0 k (a - b)) (skipn sp train) train.
